@@ -262,6 +262,7 @@ def _r3(model, res):
                           'a criterion predicate must test the item against the criterion (operator(item, number) / fnmatch(item, pattern) / '
                           'item == value); got %s' % why, func='parse_criteria')
     res.soft_floor('criteria predicate traces', n, 6)
+    _wildcard_table(model, res, m, f, fv)
     for need in ('wildcard', 'operator', 'equality'):
         if need not in kinds and need == 'wildcard':
             verdict, why = _regex_wildcards(model, m, f)
@@ -275,6 +276,49 @@ def _r3(model, res):
         if need not in kinds:
             res.violation('R3', '%s:parse_criteria:%s-missing' % (m.name, need), m.where(f),
                           'no criterion yields a %s predicate of the expected form (%s)' % (need, sorted(kinds)), func='parse_criteria')
+
+
+WILDCARD_TABLE = (
+    # criterion, item, selected?  - "?" is exactly one character, "*" any run of characters, everything else literal, whole item
+    ('ap?', 'app', True), ('ap?', 'apple', False), ('ap?', 'xapp', False), ('ap?', 'ap', False),
+    ('a*e', 'apple', True), ('a*e', 'apples', False), ('a*', 'a', True), ('*a', 'banana', True), ('*a', 'banan', False),
+    ('a.?', 'a.b', True), ('a.?', 'axb', False), ('a+?', 'a+b', True), ('a+?', 'aab', False),
+    # line breaks inside a cell are ordinary characters
+    ('ap?', 'app\n', False), ('ap?', 'ap\n', True), ('a*e', 'a\nle', True), ('*a', 'a\n', False),
+)
+
+
+def _wildcard_table(model, res, m, f, fv):
+    """R3 (wildcard table): the predicate built from a constant wildcard criterion, applied to constant items; all folding is of pure
+    stdlib text functions on constants.  A run that is not a single precise boolean is undecided."""
+    n = 0
+    for crit, item, want in WILDCARD_TABLE:
+        def call(interp, st, crit=crit, item=item):
+            pred = interp.call(fv, [Const(crit)])
+            return interp.call(pred, [Const(item)])
+        try:
+            outs = Interp(model).run(call)
+        except Unmodelled as e:
+            res.ob('R3', 'parse_criteria', {'criterion': crit, 'item': item}, True, 'undecided: %s' % e)
+            continue
+        if len(outs) != 1 or outs[0].imprecise or outs[0].kind != 'return':
+            res.ob('R3', 'parse_criteria', {'criterion': crit, 'item': item}, True, 'undecided: %d outcomes' % len(outs))
+            continue
+        v = outs[0].value
+        if isinstance(v, Const):
+            got = bool(v.value)
+        elif type(v).__name__ == 'MatchV':
+            got = True
+        else:
+            res.ob('R3', 'parse_criteria', {'criterion': crit, 'item': item}, True, 'undecided: %r' % (v,))
+            continue
+        n += 1
+        res.ob('R3', 'parse_criteria', {'criterion': crit, 'item': item, 'selected': got}, got == want)
+        if got != want:
+            res.violation('R3', '%s:parse_criteria:wildcard-table' % m.name, m.where(f),
+                          'the criterion %r %s the cell %r; with ? = one character, * = any run of characters and the whole cell compared it must %s'
+                          % (crit, 'selects' if got else 'rejects', item, 'select it' if want else 'reject it'), func='parse_criteria')
+    res.soft_floor('wildcard table rows decided', n, 10)
 
 
 def _r4_r5(model, res):
@@ -561,8 +605,8 @@ def _regex_wildcards(model, m, f):
             if isinstance(n, ast.Attribute) and n.attr in ('match', 'search') and isinstance(n.value, ast.Call) and \
                     (sa.call_name(n.value) or '').endswith('compile'):
                 uses_match = True       # re.compile(...).match handed on as a value
-                if n.func.attr == 'translate' and 'fnmatch' in src(n.func.value):
-                    anchored = True
+            if isinstance(n, ast.Call) and isinstance(n.func, ast.Attribute) and n.func.attr == 'translate' and 'fnmatch' in src(n.func.value):
+                anchored = True
             if isinstance(n, ast.Constant) and isinstance(n.value, str) and (n.value.endswith('$') or n.value.endswith('\\Z')) and len(n.value) <= 4:
                 anchored = True
     if uses_fullmatch or anchored:
